@@ -12,6 +12,7 @@ import (
 	"fmt"
 	"math/big"
 	"reflect"
+	"runtime"
 	"sync"
 	"time"
 
@@ -374,6 +375,10 @@ func (in *inv) step(op *Op) {
 			in.run(body)
 			done = true
 		})
+	case "cleanupnil": // an optional hook that is nil: t.Cleanup(nil)
+		t.Cleanup(nil)
+	case "goexit": // ends the goroutine without panicking (what testing.T.FailNow of an outer test does)
+		runtime.Goexit()
 	case "ctx":
 		c := t.Context()
 		in.noteCtx(c)
